@@ -147,13 +147,14 @@ def gen(ctx):
     add("broker-delay", Q, Q, ["c0:cutu=%d" % rng.randrange(0, 200000), "b1:delay=12000", "b2:lose"])
     add("killed-before-datachannel", 64 * KIB, 64 * KIB, ["b0:killall"])
     add("killed-before-datachannel", Q, Q, ["c0:stop=%d" % rng.randrange(0, 200000), "b1:killall"])
-    add("cut-all", Q, Q, ["t:cutall=%d" % rng.randrange(200, 15000), "t:cutall=%d" % rng.randrange(15000, 30000)], mx=3, proxies=3)
+    add("cut-all", 6 * M, 6 * M, ["t:cutall=%d" % rng.randrange(200, 4000), "t:cutall=%d" % rng.randrange(10500, 14000)], mx=3, proxies=3)
+    add("timed", 4 * M, 4 * M, ["t:%s=%d" % (rng.choice(["kill", "stop", "term"]), rng.randrange(100, 3000)), "t:freeze=%d,3000" % rng.randrange(11000, 13000)])
     add("refuse", Q, Q, ["c0:cutd=%d" % rng.randrange(0, 200000), "c0:refuse=0,15000"])
     add("no-proxy-ever-again", Q, 2 * M, ["c0:extinct=%d" % rng.randrange(1000, 400000)], stall=45000)
     add("tiny", 0, 0, ["c0:cutu=14"])
     add("tiny", 1, 1, ["c0:kill=0"])
     kinds = ["cutu", "cutd", "rstu", "rstd", "stop", "kill", "term", "freeze", "pause"]
-    for i in range(14):
+    for i in range(90):
         up, down = rng.choice([0, 1, 1000, Q, Q, M]), rng.choice([1, 5000, Q, Q, M, 2 * M])
         faults = []
         for c in range(rng.randrange(1, 4)):
